@@ -17,7 +17,7 @@ import (
 // the real event loop - against Model/PoolBan.lean. Dials can FAIL here (SimEnv.dialFail), which the sim view
 // never does. One slot range: pool 0 is its master, pool 1 (rep=1) its only replica.
 //
-//	pool m=<maxActive> rep=<0|1> | g <p> ; l <c> ; v <c> ; d <p> <0|1> ; R <p> ; C <p> ; S <p> <0|1> ; r ; w
+//	pool m=<maxActive> rep=<0|1> | g <p> ; l <c> ; v <c> ; d <p> <0|1> ; e <p> ; R <p> ; C <p> ; S <p> <0|1> ; r ; w
 //
 // g = Pool.Get on pool p, l = the peer of connection c goes away (EOF delivered), v = it goes away silently (the
 // proxy finds out when it writes), d = dialling pool p's node fails (0) / works (1)
@@ -70,6 +70,10 @@ func (poolView) Gen(r *Rng, i int) string {
 				ops = append(ops, fmt.Sprintf("v %d", r.Intn(conns)), []string{"r", "w"}[r.Intn(2)], []string{"r", "w"}[r.Intn(2)])
 				conns += 2
 			}
+		case k < 15 && r.Chance(1, 3):
+			// the ban of a node runs out (reads skip a flagged replica from then on, until the monitor clears the flag)
+			ops = append(ops, fmt.Sprintf("e %d", r.Intn(np)), "r", "r")
+			conns += 2
 		case k < 16:
 			ok := r.Intn(2)
 			ops = append(ops, fmt.Sprintf("d %d %d", r.Intn(np), ok))
@@ -103,16 +107,17 @@ func (poolView) Gen(r *Rng, i int) string {
 }
 
 type poolRun struct {
-	env    *SimEnv
-	cl     *simPeer
-	pools  []*core.Pool
-	dialAs []bool    // role each backend connection was dialled with (by backend index)
-	acked  []bool    // READONLY of that connection has been answered
-	lift   []time.Time
-	units  []int
-	fails  []string
-	tags   map[string]bool
-	maxAct int
+	env         *SimEnv
+	cl          *simPeer
+	pools       []*core.Pool
+	dialAs      []bool // role each backend connection was dialled with (by backend index)
+	acked       []bool // READONLY of that connection has been answered
+	lift        []time.Time
+	units       []int
+	fails       []string
+	tags        map[string]bool
+	maxAct      int
+	skipReplica bool
 }
 
 func (pr *poolRun) fail(f string, a ...interface{}) {
@@ -191,6 +196,8 @@ func (pr *poolRun) request(isRead bool) string {
 		before[i] = len(b.recv)
 	}
 	cb := len(pr.cl.recv)
+	// route skips a flagged replica whose ban has run out (the read is then the master's)
+	pr.skipReplica = len(pr.pools) > 1 && pr.pools[1].AutoBanFlag && pr.pools[1].LiftBanTime.Before(time.Now())
 	ordersBefore := []int32{}
 	for _, p := range pr.pools {
 		ordersBefore = append(ordersBefore, p.LiftBanOrder)
@@ -240,7 +247,7 @@ func (pr *poolRun) request(isRead bool) string {
 	}
 	// ---- oracle (C04): role of the connection, READONLY first on a replica connection
 	wantAddr := poolAddrs[0]
-	if isRead && len(pr.pools) > 1 {
+	if isRead && len(pr.pools) > 1 && !pr.skipReplica {
 		wantAddr = poolAddrs[1]
 	}
 	if b.addr != wantAddr {
@@ -254,7 +261,7 @@ func (pr *poolRun) request(isRead bool) string {
 	if pr.dialAs[target] && !strings.HasPrefix(string(b.recv), "*1\r\n$8\r\nREADONLY\r\n") {
 		pr.fail("C04: connection %d was dialled for a replica and does not start with READONLY", target)
 	}
-	if isRead && len(pr.pools) > 1 && pr.pools[1].VerifIsSlave() && !strings.Contains(string(b.recv[:len(b.recv)-len(req)]), "READONLY") {
+	if isRead && len(pr.pools) > 1 && b.addr == poolAddrs[1] && pr.pools[1].VerifIsSlave() && !strings.Contains(string(b.recv[:len(b.recv)-len(req)]), "READONLY") {
 		pr.fail("C04: read sent to replica %s on connection %d that never sent READONLY", b.addr, target)
 	}
 	if err := pr.env.Feed(b, []byte(reply)); err != nil {
@@ -382,6 +389,16 @@ func (v poolView) Exec(line string) (string, string, []string) {
 				env.backends[c].closed = true
 				if env.backends[c].vc != nil && env.backends[c].vc.Opened() {
 					pr.tags["vanish:open"] = true
+				}
+			}
+			res = "-"
+		case f[0] == "e" && len(f) == 2:
+			// time passes: the ban of pool p has run out (LiftBanTime lies in the past)
+			if p := arg(1); p >= 0 && p < len(pr.pools) {
+				pr.pools[p].LiftBanTime = time.Now().Add(-time.Hour)
+				pr.lift[p] = pr.pools[p].LiftBanTime
+				if pr.pools[p].AutoBanFlag {
+					pr.tags["ban-ran-out"] = true
 				}
 			}
 			res = "-"
